@@ -38,3 +38,11 @@ Print Assumptions C19_archive_list_roundtrip.
 Theorem C19_method_roundtrip m : 1 <= m <= 8 -> method_of_string (method_string m) = Some m.
 Proof. exact (method_roundtrip m). Qed.
 Print Assumptions C19_method_roundtrip.
+
+(** exactness for timestamps: whatever ParseTimestamp accepts is — after the two liberal forms of
+    time.Parse are undone ([normalize_ts]: a one-digit hour gets its zero, an all-zero fraction is
+    dropped) — exactly the printed form of the value it returns; nothing outside 32 bits is returned *)
+Theorem C19_parse_timestamp_exact s t : parse_timestamp s = Some t ->
+  exists s', normalize_ts s = Some s' /\ timestamp_string t = s' /\ 0 <= t < 2^32.
+Proof. exact (parse_timestamp_exact s t). Qed.
+Print Assumptions C19_parse_timestamp_exact.
